@@ -67,35 +67,124 @@ HARNESSES.append(_h('c16_foreign_module', 'a class of the module derives from a 
                     dict(NT=3, LIBSETS='aBc-', CODE_FROM=0, CODE_TO=5, SKIP3=1, ncases=4),
                     dict(NT=3, LIBSETS='aBc-;Abc-', CODE_FROM=0, CODE_TO=10, SKIP3=1, ncases=16)))
 
-# ---- symbolic dependency graphs (c16_graph.cxx) ----------------------------------------------------------------
+# ---- symbolic dependency graphs on up to 4 libraries (c16_graph.cxx) ----------------------------------------------
 # set nodes are 64 bytes, map nodes 112: field-sensitive up to 120 keeps the pointers in them constants but not the
 # padding arrays of the stream model; small stream pools (symbolic execution cost grows with them)
 _FS2 = ['--max-field-sensitivity-array-size', '120', '-DVS_NOBJ=3', '-DVS_NBUF=2', '-DVS_CAP=4']
+_GRAPH_ORACLE = ('exactly NL libraries are referenced, each of them once; for every edge u -> v (the class of library u derives from / is a '
+                 'typedef of the class of library v) that is on no dependency cycle (u not reachable from v in the bit matrix), v is '
+                 'initialised before u; the ordering loop and find_dependency_cycle terminate (unwinding assertions, replayed natively as a hang)')
 
-def _g(hid, nl, one, zero, desc, lo=0, hi=1, unwind=12, fdc=None, cap=600, tiers=('quick', 'thorough'), td=0, extra_us=None):
+def _bit(nl, e):
+    return 1 << ((ord(e[0]) - 97) * nl + (ord(e[1]) - 97))
+
+def _mask(nl, edges):
+    m = 0
+    for e in edges.split():
+        m |= _bit(nl, e)
+    return m
+
+def _g(hid, nl, one, zero, lo, hi, desc, tiers, td=''):
+    """one / zero / td: space separated edges 'ab' = library a depends on library b; every other edge is a free
+    (symbolic) bit; lo..hi: the values of the free bits (row-major order) this entry covers"""
+    allbits = sum(1 << (u * nl + v) for u in range(nl) for v in range(nl) if u != v)
+    one_m, zero_m = _mask(nl, one), _mask(nl, zero)
+    free = [chr(97 + u) + chr(97 + v) for u in range(nl) for v in range(nl) if u != v and not (_bit(nl, chr(97 + u) + chr(97 + v)) & (one_m | zero_m))]
+    assert hi <= 1 << len(free)
     us = dict(_US)
-    us.update({_FDC: fdc or nl + 2, _FDC + '.0': nl + 1})
+    # find_dependency_cycle: depth <= NL + 1, at most NL - 1 dependencies per library
+    us.update({_FDC: nl + 2, _FDC + '.0': nl + 1})
+    # the harness' constant tables are copied with memcpy (64 bytes); its own loops count cumulatively over the nest
     us.update({'ll_memcpy.0': 80, 'll_memmove.0': 12, 'll_memmove.1': 12})
-    us.update({'harness_c16_graph.%d' % i: 80 for i in range(24)})
-    us.update(extra_us or {})
-    d = dict(NL=nl, E_ONE='%du' % one, E_ZERO='%du' % zero, E_TYPEDEF='%du' % td, CODE_FROM='%du' % lo, CODE_TO='%du' % hi)
+    us.update({'harness_c16_graph.%d' % i: hi - lo + 4 for i in range(4)})
+    us.update({'_ZL8run_casej.%d' % i: 80 for i in range(24)})
+    d = dict(NL=nl, E_ONE='%du' % one_m, E_ZERO='%du' % zero_m, E_TYPEDEF='%du' % _mask(nl, td), CODE_FROM='%du' % lo, CODE_TO='%du' % hi)
+    # each pass of the ordering loop adds a library or breaks an edge: NL + NL*(NL-1) passes at the very most
     return dict(id=hid, property='C16', src='c16_graph.cxx', entry='harness_c16_graph', tus=_TUS, cut=_CUT,
-                models=['printf.c'], cbmc_flags=_FS2, desc=desc, domain='', nonterm_is_violation=True,
-                bounds=dict(quick=dict(defs=d, unwind=unwind, unwindset=us, cap=cap)), tiers=tiers, oracle='')
-HARNESSES.append(_g('c16_dev2', 2, 0, 0, 'dev', unwind=3, cap=200, extra_us={_SETE: 2, _SETE + '.0': 2, 'll_memcmp.0': 2}))
-HARNESSES.append(_g('c16_dev4s', 4, 576, 54713, 'dev', hi=16, unwind=20))
-HARNESSES.append(_g('c16_dev4c', 4, 10822, 0xFFFF & ~10822, 'dev', unwind=20))
+                models=['printf.c', 'casesplit.c'], cbmc_flags=_FS2, desc=desc, nonterm_is_violation=True,
+                domain='%d libraries a.., one global class each; edges fixed present: {%s}, fixed absent: {%s}%s; SYMBOLIC edge bits (in this order): '
+                       '%s, values %d..%d of the %d-bit vector; the solver picks the value, the harness branches on it so that every '
+                       'branch runs the real code on constants' % (nl, one, zero, ('; made by a typedef instead of a base class: {%s}' % td) if td else '',
+                                                                    ' '.join(free), lo, hi - 1, len(free)),
+                oracle=_GRAPH_ORACLE, tiers=tiers,
+                bounds=dict(quick=dict(defs=d, unwind=nl + nl * (nl - 1) + 4, unwindset=us, cap=200 + 40 * (hi - lo))))
+
+# Family T: library a is a pure "tail" (nothing derives from its class; it sorts FIRST, so the cycle search starts from
+# it and finds cycles it only leads into), any digraph on b,c,d, any set of edges from a: 9 free bits, 512 graphs.
+# free bits in order: ab ac ad bc bd cb cd db dc
+_T0 = 'ba ca da'
+# quick: the 8 edge sets of the tail for three cyclic shapes of b,c,d
+#   232..239: bc cb cd db   (2-cycle b<->c plus 3-cycle b->c->d->b)
+#   200..207: bc cd db      (3-cycle), edges ab and cd made by typedefs
+#   40..47:   bc cb         (2-cycle, d isolated or used by a only)
+HARNESSES.append(_g('c16_tail4_q232', 4, '', _T0, 232, 240, 'tail library a leading into two overlapping cycles of b,c,d (4 libraries)', ('quick',)))
+HARNESSES.append(_g('c16_tail4_q200', 4, '', _T0, 200, 208, 'tail library a leading into the 3-cycle b->c->d->b (4 libraries), typedef edges', ('quick',), td='ab cd'))
+HARNESSES.append(_g('c16_tail4_q40', 4, '', _T0, 40, 48, 'tail library a leading into the 2-cycle b<->c, fourth library d (4 libraries)', ('quick',)))
+# thorough: the whole family, and the mirror family L in which the pure tail is d (sorts LAST)
+for _k in range(16):
+    HARNESSES.append(_g('c16_tail4_a%02d' % _k, 4, '', _T0, 32 * _k, 32 * _k + 32,
+                        'every dependency graph of 4 libraries in which nothing depends on library a (slice %d/16)' % _k, ('thorough',)))
+for _k in range(16):
+    HARNESSES.append(_g('c16_tail4_d%02d' % _k, 4, '', 'ad bd cd', 32 * _k, 32 * _k + 32,
+                        'every dependency graph of 4 libraries in which nothing depends on library d (slice %d/16)' % _k, ('thorough',)))
+# all 64 digraphs on 3 libraries and all 4 on 2 through the same harness (edges by base class)
+for _k in range(2):
+    HARNESSES.append(_g('c16_sym3_%d' % _k, 3, '', '', 32 * _k, 32 * _k + 32, 'every dependency graph of 3 libraries, edge bits symbolic (half %d)' % _k, ('thorough',)))
+HARNESSES.append(_g('c16_sym2', 2, '', '', 0, 4, 'every dependency graph of 2 libraries, edge bits symbolic', ('quick', 'thorough')))
+
+# ---- database clause ------------------------------------------------------------------------------------------
+_DB = 'src/interrogatedb/'
+_OPEN_READ = '_ZNK8Filename9open_readERSt14basic_ifstreamIcSt11char_traitsIcEE'
+_DB_READ = '_ZN19InterrogateDatabase4readERSiP20InterrogateModuleDef'
+_LOAD_LOOPS = dict(list(STATIC_INIT_LOOPS.items()) + list(DIAG_LOOPS.items()) + [('ll_strdup.0', 17)])
+_FILES_DOMAIN = ('%d database files requested by (absolute) name; per file, symbolically: it can be opened or not, header identifier / major / '
+                 'minor version over all of int, InterrogateDatabase::read() succeeds or fails on its body; every combination, hence every '
+                 'position of the bad file(s); Filename::open_read and InterrogateDatabase::read are stand-ins (as in c12_header)')
+for _n, _tiers in ((1, ('thorough',)), (2, ('quick', 'thorough')), (3, ('quick', 'thorough'))):
+    HARNESSES.append(dict(
+        id='c16_load_%d' % _n, property='C16', src='c16_load.cxx', entry='harness_c16_load',
+        tus=[_DB + 'interrogateDatabase.cxx', _DB + 'config_interrogatedb.cxx', _DB + 'interrogate_request.cxx', 'src/dtoolutil/filename.cxx'],
+        cut=[_OPEN_READ, _DB_READ], models=['strdup.c'], cbmc_flags=['-DVS_CAP=16'], tiers=_tiers,
+        desc='the database-load error is sticky: interrogate_request_database x %d, then the first query (check_latest -> load_latest)' % _n,
+        domain=_FILES_DOMAIN % _n,
+        oracle='every requested file is opened once and parsed exactly when it opened with an acceptable version; afterwards the error flag is '
+               'set IFF at least one file failed to load (could not be opened, version mismatch, or read() failed); no request stays pending',
+        bounds={'quick': dict(defs=dict(NDB=_n), unwind=8, unwindset=_LOAD_LOOPS, cap=600)}))
+
+for _mode, _n, _tiers in ((2, 2, ('quick', 'thorough')), (1, 2, ('quick', 'thorough')), (2, 3, ('thorough',)), (1, 3, ('thorough',))):
+    HARNESSES.append(dict(
+        id='c16_main_%s_%d' % (['c', 'python', 'native'][_mode], _n), property='C16', src='c16_main.cxx', entry='harness_c16_main',
+        tus=['src/interrogate/interrogate_module.cxx', _DB + 'interrogateDatabase.cxx', _DB + 'config_interrogatedb.cxx',
+             _DB + 'interrogate_request.cxx', _DB + 'interrogate_interface.cxx', 'src/dtoolutil/filename.cxx'],
+        cut=[_OPEN_READ, _DB_READ, '_Z18write_python_tableRSo', '_Z25write_python_table_nativeRSo', '_ZNK8Filename6unlinkEv'],
+        keep=['verif_at_exit'], models=['strdup.c'], cbmc_flags=['-DVS_CAP=16'], replay='script', confirm_script='c16_confirm.sh', tiers=_tiers,
+        desc='the real main() of interrogate_module.cxx (-oc, mode %s) on top of the real database loader with %d database files on the command line'
+             % (['-c', '-python', '-python-native'][_mode], _n),
+        domain=(_FILES_DOMAIN % _n) + '; getopt_long_only, Filename::unlink and write_python_table[_native] are stand-ins (the latter asks the '
+               'database for its number of functions, which triggers the load, and writes a little); no write faults (see C19)',
+        oracle='some database failed to load => exit status != 0 and the output file is unlinked; every database loaded => exit status 0 and the '
+               'output is kept; counterexamples are confirmed with the real binaries on garbage / truncated / missing files (c16_confirm.sh)',
+        bounds={'quick': dict(defs=dict(NDB=_n, MODE=_mode), unwind=40, unwindset=_LOAD_LOOPS, cap=600)}))
 
 PROPERTY_INFO = {'C16': {'level': 'model_checking',
          'explanation': 'execution of the real library-ordering code of interrogate_module (write_python_table_native, find_dependency_cycle) by the '
-                        'CBMC engine over a model of the interrogate database query interface; the databases are enumerated by concrete loops '
-                        'inside each query (all 64 labelled dependency graphs on 3 libraries in the quick tier; symbolic dependency sets make the '
-                        'shape of std::map<string, set<string>> symbolic and do not finish), termination is decided by unwinding assertions',
+                        'CBMC engine over a model of the interrogate database query interface.  The dependency graph is given by edge bits: '
+                        'in the c16_tail4_* / c16_sym* harnesses the bits are one symbolic bit vector whose value the solver chooses and on which the '
+                        'harness branches (every branch executes the real code on constants: a std::set whose membership is symbolic has symbolic '
+                        'node pointers and symbolic execution does not finish even for 2 libraries); the older c16_graph3_* harnesses enumerate the '
+                        '3-library databases (base class / typedef / missing library name / foreign module variants) in concrete loops.  '
+                        'Termination is decided by unwinding assertions.  The database clause is decided on the real loader '
+                        '(request_module / check_latest / load_latest) and the real main() of interrogate_module with symbolic per-file '
+                        'outcomes (cannot be opened / wrong version / read fails / loads) for 1..3 files',
          'outside': 'import/initialisation of the built module; the text of the generated file beyond the order of the library vector (the '
-                    'RegisterTypes / BuildInstants / defs[] loops iterate the same vector); more than 3 libraries; command-line order of the '
-                    'database files (the query interface is modelled, not loaded); the main() tail (exit status, output file removal) is '
-                    'covered by the C19 harness family',
+                    'RegisterTypes / BuildInstants / defs[] loops iterate the same vector); 4 libraries other than the two families "nothing '
+                    'depends on the first / on the last library" (1024 of the 4096 labelled digraphs; quick tier: 24 graphs with a tail leading into '
+                    'cycles); more than 4 libraries; more than 3 database files; the record parser and the file system below '
+                    'InterrogateDatabase::read / Filename::open_read (C12); output write faults in main() (C19); interrogate_module -c mode and '
+                    'runs without -oc, which never read the requested databases',
          'assumptions': ['the "Referencing Library" progress message is printed for exactly the elements of the ordered library vector, in order, '
-                         'inside the loop that emits the LibraryDef declarations (read off the source); models/printf.c records it']}}
+                         'inside the loop that emits the LibraryDef declarations (read off the source); models/printf.c records it',
+                         'write_python_table / write_python_table_native first ask the database for its number of functions, which is what '
+                         'makes the database read the requested files (read off the source); the stand-ins in c16_main.cxx do the same']}}
 
 NOT_APPLICABLE = {}
